@@ -19,23 +19,33 @@ const c06SymCases = 24
 
 func c06Symmetric(c *core.Ctx, idx int) {
 	r := c.Rand()
+	// odd cases: the two sides are two fields of the one store (mentees <-> mentors), links are directed
+	directed := idx%2 == 1
 	peers := &schema.StoreDef{Type: "peers", BasePath: []string{"stores"},
 		Fields: []schema.Field{{Name: "label", Kind: schema.KStr}, {Name: "friends", Kind: schema.KList, FK: "peers", Derived: true}},
 		Links:  []schema.LinkDef{{Field: "friends", Target: "peers", TargetField: "friends"}}}
+	if directed {
+		peers.Fields = []schema.Field{{Name: "label", Kind: schema.KStr}, {Name: "mentees", Kind: schema.KList, FK: "peers", Derived: true}, {Name: "mentors", Kind: schema.KList, FK: "peers", Derived: true}}
+		peers.Links = []schema.LinkDef{{Field: "mentees", Target: "peers", TargetField: "mentors"}, {Field: "mentors", Target: "peers", TargetField: "mentees"}}
+	}
 	sc := schema.Build([]*schema.StoreDef{peers})
 	path := c.TempFile("c06y")
 	db, err := sc.OpenDb(path)
 	if err != nil {
-		c.Violation("C06 setup", err.Error(), nil)
+		c.Violation(c.Prop.ID+" setup", err.Error(), nil)
 		return
 	}
 	defer func() { _ = db.Close(); _ = os.Remove(path) }()
 	st := sc.St("peers")
 	links := st.Links["friends"]
+	back := links
+	if directed {
+		links, back = st.Links["mentees"], st.Links["mentors"]
+	}
 	pool := []string{"a", "b", "c", "d", "e", "f", "g"}
 	live := map[string]bool{}
 	pair := func(x, y string) [2]string {
-		if x > y {
+		if x > y && !directed {
 			x, y = y, x
 		}
 		return [2]string{x, y}
@@ -111,7 +121,7 @@ func c06Symmetric(c *core.Ctx, idx int) {
 						sameTx = true
 					}
 				}
-				c.Cover("symmetric_delete", fmt.Sprintf("links of the deleted entity written in the same transaction=%v", sameTx))
+				c.Cover("symmetric_delete", fmt.Sprintf("links of the deleted entity written in the same transaction=%v, two fields=%v", sameTx, directed))
 			}
 		}
 		var desc []string
@@ -140,7 +150,7 @@ func c06Symmetric(c *core.Ctx, idx int) {
 		c.Count("symmetric_link_transactions", 1)
 		info := map[string]any{"transactions": hist[max(0, len(hist)-3):]}
 		if err != nil {
-			c.Violationf("C06 symmetric link collection: a valid transaction was refused", info, "%v", err)
+			c.Violationf(c.Prop.ID+" symmetric link collection: a valid transaction was refused", info, "%v", err)
 			return
 		}
 		live, linked = tLive, tLinked
@@ -151,22 +161,36 @@ func c06Symmetric(c *core.Ctx, idx int) {
 					continue
 				}
 				got := links.GetLinks(tx, id)
-				var want []string
+				var want, wantBack []string
 				for _, o := range pool {
 					if linked[pair(id, o)] {
 						want = append(want, o)
 					}
+					if linked[pair(o, id)] {
+						wantBack = append(wantBack, o)
+					}
 				}
 				sort.Strings(got)
+				if gotBack := back.GetLinks(tx, id); directed {
+					sort.Strings(gotBack)
+					for _, o := range gotBack {
+						if !live[o] {
+							c.Violationf(c.Prop.ID+" link collection between two fields of one store: the id of a deleted entity is still in a link set", info, "mentors of %s = %q, %s was deleted", id, gotBack, o)
+						}
+					}
+					if fmt.Sprint(gotBack) != fmt.Sprint(wantBack) {
+						c.Violationf(c.Prop.ID+" link collection between two fields of one store: link set differs from the committed link operations", info, "mentors of %s = %q, expected %q", id, gotBack, wantBack)
+					}
+				}
 				for _, o := range got {
 					if !live[o] {
-						c.Violationf("C06 symmetric link collection: the id of a deleted entity is still in a link set", info, "friends of %s = %q, %s was deleted", id, got, o)
-					} else if !links.IsLinked(tx, []byte(o), []byte(id)) {
-						c.Violationf("C05 symmetric link collection: a link exists on one side only", info, "%s lists %s, %s does not list %s", id, o, o, id)
+						c.Violationf(c.Prop.ID+" symmetric link collection: the id of a deleted entity is still in a link set", info, "friends of %s = %q, %s was deleted", id, got, o)
+					} else if !back.IsLinked(tx, []byte(o), []byte(id)) {
+						c.Violationf(c.Prop.ID+" symmetric link collection: a link exists on one side only", info, "%s lists %s, %s does not list %s", id, o, o, id)
 					}
 				}
 				if fmt.Sprint(got) != fmt.Sprint(want) {
-					c.Violationf("C06 symmetric link collection: link set differs from the committed link operations", info, "friends of %s = %q, expected %q", id, got, want)
+					c.Violationf(c.Prop.ID+" symmetric link collection: link set differs from the committed link operations", info, "friends of %s = %q, expected %q", id, got, want)
 				}
 			}
 			return nil
